@@ -149,6 +149,19 @@ def main():
     results = P.run_tasks(tasks)
     P.log("lemmas done: %s" % {s: sum(1 for r in results if r['status'] == s) for s in ('proved', 'failed', 'inconclusive')})
 
+    # solver diffing (thorough tier): a sample of the lemma tasks is re-decided through the SMT-LIB2 encoding by z3
+    cross = {"tasks": 0, "disagreements": []}
+    if tier == "thorough" and solver == "kissat":
+        pairs = sorted([(r.get("nodes", 0), i) for i, r in enumerate(results) if r["status"] in ("proved", "failed") and r.get("nodes", 0) < 40000], reverse=True)[:10]
+        t2 = [dict(tasks[i], solver="z3", timeout=900) for _, i in pairs]
+        r2 = P.run_tasks(t2) if t2 else []
+        cross["tasks"] = len(r2)
+        for (_, i), b in zip(pairs, r2):
+            a = results[i]
+            if b["status"] != a["status"]:
+                cross["disagreements"].append({"program": a["program"], "U": a["U"], "lemma": a["lemma"], "kissat": a["status"], "z3": b["status"], "reason": b.get("reason", "")[:200]})
+        P.log("solver diffing: %d tasks re-decided by z3, %d disagreements" % (cross["tasks"], len(cross["disagreements"])))
+
     # translator validation (of the tool): concrete interpretation vs native execution
     harness = N.NativeHarness(scratch, repo=P.REPO)
     for name, (su, sch) in schemas.items():
@@ -235,7 +248,7 @@ def main():
         for r in sc_results:
             if r["status"] == "failed":
                 found = r["found"]
-                path = P.save_replay(prop, r["program"] + "_selfcomp", corpus.programs[r["program"]]["eql"], {"history_1": found[0][0], "history_2": found[0][1]}, found[1], found[2])
+                path = P.save_replay(prop, r["program"] + "_selfcomp", corpus.programs[r["program"]]["eql"], {"history_1": found[0][0], "history_2": found[0][1]}, found[1], found[2], kind="selfcomp")
                 violations.append((r["program"], ["history independence"], path, ({"history_1": found[0][0], "history_2": found[0][1]}, found[1], found[2])))
             elif r["status"] == "inconclusive":
                 unconfirmed.append((r["program"], ["self-composition"], [r.get("reason", "")[:300]]))
@@ -244,7 +257,7 @@ def main():
         name = w["program"]
         if w["found"]:
             found = tuple(w["found"])
-            path = P.save_replay(prop, name, corpus.programs[name]["eql"], found[0], found[1], found[2])
+            path = P.save_replay(prop, name, corpus.programs[name]["eql"], found[0], found[1], found[2], kind=w.get("kind"))
             violations.append((name, rest_of[name][:5], path, found))
         else:
             unconfirmed.append((name, rest_of[name][:5], w["tried"]))
@@ -277,6 +290,7 @@ def main():
         "functions_encoded": ["every fn of the generated module reachable from new/close_until/public mutators",
                               "eqlog-runtime/src/unification.rs (interpreted)", "PrefixTreeN by contract (decided separately by C08)"],
         "translator_validation": {"scripts": val_n, "mismatches": len(val_bad)},
+        "solver_diffing": cross,
         "samples": samples,
         "vacuity_witnesses": {"%s/%s" % k: v for k, v in cover.items()},
         "known_findings_hit": [{"id": k["id"], "program": n, "labels": ls} for k, n, ls in known_hits],
@@ -310,7 +324,9 @@ def main():
         sys.exit(1)
     for k in vacuous:
         print("INCONCLUSIVE: vacuity witness %s unreachable in every program" % (k,))
-    if inconclusive or unconfirmed or val_bad or vacuous:
+    for d in cross["disagreements"][:5]:
+        print("INCONCLUSIVE: kissat and z3 disagree on %s" % (d,))
+    if inconclusive or unconfirmed or val_bad or vacuous or cross["disagreements"]:
         for r in inconclusive[:10]:
             print("INCONCLUSIVE: %s U=%d %s: %s" % (r["program"], r["U"], r["lemma"], r.get("reason", "")[:300]))
         for u in unconfirmed[:10]:
